@@ -63,33 +63,33 @@ type raceAccess struct {
 }
 
 type Sched struct {
-	mu       sync.Mutex
-	tasks    []*Task
-	byGid    map[uint64]*Task
-	locks    map[lockKey]*lockInfo
-	current  *Task
-	yieldCh  chan struct{}
-	active   bool
-	preempt  map[string]bool // lock kinds whose Acquire always yields
-	schedule []int           // explicit choices (task ids), consumed at choice points
-	pos      int
-	gen      *G      // non-nil: draw choices and append them to Chosen
-	pPreempt float64 // preemption probability while generating
-	Chosen   []int
-	trace    []byte
-	Steps    int
-	MaxSteps int
-	StepCost time.Duration
-	Grace    time.Duration // how long a released task may block outside hooks before others run
-	IdleMax  time.Duration // simulated time without progress that counts as a hang
-	Stats    map[string]int64
-	lockPairs map[string]bool // observed acquisition order pairs "siteA>siteB"
+	mu         sync.Mutex
+	tasks      []*Task
+	byGid      map[uint64]*Task
+	locks      map[lockKey]*lockInfo
+	current    *Task
+	yieldCh    chan struct{}
+	active     bool
+	preempt    map[string]bool // lock kinds whose Acquire always yields
+	schedule   []int           // explicit choices (task ids), consumed at choice points
+	pos        int
+	gen        *G      // non-nil: draw choices and append them to Chosen
+	pPreempt   float64 // preemption probability while generating
+	Chosen     []int
+	trace      []byte
+	Steps      int
+	MaxSteps   int
+	StepCost   time.Duration
+	Grace      time.Duration // how long a released task may block outside hooks before others run
+	IdleMax    time.Duration // simulated time without progress that counts as a hang
+	Stats      map[string]int64
+	lockPairs  map[string]bool // observed acquisition order pairs "siteA>siteB"
 	deadOwners map[any]bool
 	// hooks for the executor
-	OnPoint  func(t *Task, name string) // called in the task's goroutine before it parks
-	accLog   map[string][]raceAccess
-	Races    []string
-	names    map[any]string // display names for lock objects
+	OnPoint   func(t *Task, name string) // called in the task's goroutine before it parks
+	accLog    map[string][]raceAccess
+	Races     []string
+	names     map[any]string // display names for lock objects
 	Violation *Violation
 }
 
@@ -385,7 +385,6 @@ func (s *Sched) access(owner any, obj string, write bool) {
 	}
 	s.accLog[obj] = append(kept, raceAccess{task: t, write: write, locks: ls, site: site})
 }
-
 
 // KillOwner marks every task of an owner (a crashed hub instance) dead.
 func (s *Sched) KillOwner(owner any) {
